@@ -60,7 +60,7 @@ theorem pv_exec (ep : ExtProc ext) (ecl : ExtCodeLawsV ext) {s' : St CHeap} {b :
   | pushAcc => exact pv_pushAcc p hx
   | pushImm => exact pv_pushImm p hop hx
   | halt => exact pv_halt p hx
-  | vpushAcc => exact pv_vpush ep g p hx
+  | vpushAcc => exact pv_vpush ep g lf p hx
   | callAcc => exact pv_call ep ecl g ci sd p hop hx
   | closureAcc => exact pv_closure g lf p hx
   | enter => exact pv_enter lf p hx
